@@ -56,3 +56,21 @@ Definition case_iset (la lb : list (Z * Z)) (probe : list Z) : val :=
   let a := mk_iset la in let b := mk_iset lb in
   toval (a, union a b, inter a b, diff a b, map (contains a) probe, nonempty a).
 Definition case_parse (fuel : nat) (txt : list Z) : val := toval (parse fuel txt).
+
+(* ---- switched variants: fx = true selects the repaired function (probed by the check) *)
+Definition compile_sw (fx : bool) (fuel : nat) (r : re) : result dfa :=
+  if fx then compile_fx fuel r else compile fuel r.
+Definition scan_sw (fx : bool) := if fx then scan_fx else scan.
+Definition case_compile_sw (fx : bool) (fuel : nat) (r : re) : val :=
+  toval (fuel_as_internal (compile_sw fx fuel r)).
+Definition case_run_sw (fx : bool) (fuel : nat) (r : re) (n : nat) : val :=
+  toval (match compile_sw fx fuel r with
+         | Ok d => map (fun w => run d w) (words_upto n)
+         | _ => map (fun _ => Internal OverflowErr) (words_upto n)
+         end).
+(* scan outcomes on all short words; OutOfFuel (divergence) is rendered as Internal *)
+Definition case_scan_sw (fxc fxs : bool) (fuel : nat) (r : re) (n : nat) : val :=
+  toval (match compile_sw fxc fuel r with
+         | Ok d => map (fun w => fuel_as_internal (scan_sw fxs fuel d w)) (words_upto n)
+         | _ => map (fun _ => Internal OverflowErr) (words_upto n)
+         end).
